@@ -146,6 +146,17 @@ theorem two64_F : (18446744073709551616 : F) = (4294967295 : F) := by
     natCast_eq_of_mod _ _ (by decide)
   exact_mod_cast this
 
+/-- reduce_avx_96_64 in the field view, for a high word known as a natural number below 2^32 (the caller supplies
+  the number; how the register holding it was computed is left to unification) -/
+theorem den_reduce96_sum (h l : V4) (i : Fin 4) (t : Nat) (ht : (h.get i).toNat = t) (hlt : t < 4294967296) :
+    den ((reduce_avx_96_64 h l).get i) = (t : F) * (18446744073709551616 : F) + den (l.get i) := by
+  have red := reduce96_spec h l i
+  rw [ht, Nat.mod_eq_of_lt hlt] at red
+  rw [den_of_mod _ _ red]
+  unfold den
+  push_cast
+  rfl
+
 theorem spmv_8_den (a0 a1 a2 : V4) (b : Region) (i : Fin 4)
     (hb : ∀ k, k < 12 → (b k).toNat < 256) :
     den ((spmv_avx_4x12_8 a0 a1 a2 b).get i) =
@@ -159,43 +170,18 @@ theorem spmv_8_den (a0 a1 a2 : V4) (b : Region) (i : Fin 4)
   obtain ⟨m0, n0⟩ := den_mult72 a0 (load_avx b) i g0
   obtain ⟨m1, n1⟩ := den_mult72 a1 (load_avx (Region.shift b 4)) i g1
   obtain ⟨m2, n2⟩ := den_mult72 a2 (load_avx (Region.shift b 8)) i g2
-  simp only [load_avx, get_load, Region.shift_apply] at m0 m1 m2
-  rw [← m0, ← m1, ← m2]
-  -- the reduction of (c_h, c_l) with c_h = c0_h + c1_h + c2_h < 2^32
-  have red := reduce96_spec
-    (Avx2.add_epi64 (Avx2.add_epi64 (mult_avx_72 a0 (load_avx b)).1 (mult_avx_72 a1 (load_avx (Region.shift b 4))).1)
-      (mult_avx_72 a2 (load_avx (Region.shift b 8))).1)
-    (add_avx__vVV (add_avx__vVV (mult_avx_72 a0 (load_avx b)).2 (mult_avx_72 a1 (load_avx (Region.shift b 4))).2)
-      (mult_avx_72 a2 (load_avx (Region.shift b 8))).2) i
-  have hsum : ((Avx2.add_epi64 (Avx2.add_epi64 (mult_avx_72 a0 (load_avx b)).1
-      (mult_avx_72 a1 (load_avx (Region.shift b 4))).1) (mult_avx_72 a2 (load_avx (Region.shift b 8))).1).get i).toNat =
-      ((mult_avx_72 a0 (load_avx b)).1.get i).toNat + ((mult_avx_72 a1 (load_avx (Region.shift b 4))).1.get i).toNat +
-        ((mult_avx_72 a2 (load_avx (Region.shift b 8))).1.get i).toNat := by
-    simp only [Avx2.add_epi64, V4.get_map2, BitVec.toNat_add]
-    omega
-  rw [hsum] at red
-  have hlt : (((mult_avx_72 a0 (load_avx b)).1.get i).toNat + ((mult_avx_72 a1 (load_avx (Region.shift b 4))).1.get i).toNat +
-        ((mult_avx_72 a2 (load_avx (Region.shift b 8))).1.get i).toNat) % 4294967296 =
-      ((mult_avx_72 a0 (load_avx b)).1.get i).toNat + ((mult_avx_72 a1 (load_avx (Region.shift b 4))).1.get i).toNat +
-        ((mult_avx_72 a2 (load_avx (Region.shift b 8))).1.get i).toNat := by omega
-  rw [hlt] at red
-  have dr := den_of_mod _ _ red
-  have e : (spmv_avx_4x12_8 a0 a1 a2 b).get i = (reduce_avx_96_64
-      (Avx2.add_epi64 (Avx2.add_epi64 (mult_avx_72 a0 (load_avx b)).1 (mult_avx_72 a1 (load_avx (Region.shift b 4))).1)
-        (mult_avx_72 a2 (load_avx (Region.shift b 8))).1)
-      (add_avx__vVV (add_avx__vVV (mult_avx_72 a0 (load_avx b)).2 (mult_avx_72 a1 (load_avx (Region.shift b 4))).2)
-        (mult_avx_72 a2 (load_avx (Region.shift b 8))).2)).get i := by
-    simp only [spmv_avx_4x12_8]
-  rw [e, dr]
+  simp only [get_load, load_avx, Region.shift_apply] at m0 m1 m2
+  -- the three 72-bit products: low parts added mod p (in any association), high parts (< 2^8 each) added as
+  -- 64-bit integers (in any association and order), then one 96-bit reduction
+  simp only [spmv_avx_4x12_8]
+  rw [den_reduce96_sum _ _ i
+    (((mult_avx_72 a0 (load_avx b)).1.get i).toNat + ((mult_avx_72 a1 (load_avx (Region.shift b 4))).1.get i).toNat +
+      ((mult_avx_72 a2 (load_avx (Region.shift b 8))).1.get i).toNat)
+    (by simp only [lane_get, BitVec.toNat_add]; omega) (by omega)]
+  simp only [den_add_avx, load_avx]
+  simp only [load_avx] at n0 n1 n2
   push_cast
-  have dl : den ((add_avx__vVV (add_avx__vVV (mult_avx_72 a0 (load_avx b)).2 (mult_avx_72 a1 (load_avx (Region.shift b 4))).2)
-      (mult_avx_72 a2 (load_avx (Region.shift b 8))).2).get i) =
-      den ((mult_avx_72 a0 (load_avx b)).2.get i) + den ((mult_avx_72 a1 (load_avx (Region.shift b 4))).2.get i) +
-        den ((mult_avx_72 a2 (load_avx (Region.shift b 8))).2.get i) := by
-    rw [den_add_avx, den_add_avx]
-  simp only [load_avx] at dl ⊢
-  unfold den at dl ⊢
-  rw [dl]
+  rw [← m0, ← m1, ← m2]
   ring
 
 
